@@ -7,20 +7,32 @@ Import ListNotations.
 Local Open Scope Z_scope.
 
 (* ---------------------------------------------------------------- user consent *)
-(* chain elements on which OpenSSL's own verdict was "not ok" *)
-Definition failing (stream : list Z) : nat := length (filter (fun p => negb (p =? 1)) stream).
+(* the certificates on which OpenSSL's own verdict was "not ok", in the order they are reported *)
+Definition failing_certs (stream : list (Z * Z)) : list Z :=
+  map snd (filter (fun e => negb (fst e =? 1)) stream).
 
-(* the user's handler is installed and accepts when asked for the i-th time *)
-Definition cb_accepts (cb : cbk) (i : nat) : Prop :=
-  match cb with CbNone => False | CbScript a d => nth i a d <> 0 end.
-Definition cb_accepts_b (cb : cbk) (i : nat) : bool :=
-  match cb with CbNone => false | CbScript a d => negb (nth i a d =? 0) end.
+(* what the user's handler says when it is asked for the i-th time about certificate `cert` *)
+Definition user_says (cb : cbk) (i : nat) (cert : Z) : option Z :=
+  match cb with
+  | CbNone => None
+  | CbScript a d => Some (nth i a d)
+  | CbByCert l d => Some (match find (fun kv => cert =? fst kv) l with Some kv => snd kv | None => d end)
+  end.
 
-(* trust flag, or every failing element was accepted by an installed callback (vacuous when none failed) *)
+(* the handler is installed and accepts the i-th failing certificate, being asked about that very certificate *)
+Definition cb_accepts (cb : cbk) (i : nat) (cert : Z) : Prop :=
+  exists a, user_says cb i cert = Some a /\ a <> 0.
+Definition cb_accepts_b (cb : cbk) (i : nat) (cert : Z) : bool :=
+  match user_says cb i cert with Some a => negb (a =? 0) | None => false end.
+
+(* trust flag, or every failing certificate was accepted by an installed callback (vacuous when none failed) *)
 Definition user_consent (sc : scenario) : Prop :=
-  s_trust sc = true \/ forall i, (i < failing (s_stream sc))%nat -> cb_accepts (s_cb sc) i.
+  s_trust sc = true \/
+  forall i cert, nth_error (failing_certs (s_stream sc)) i = Some cert -> cb_accepts (s_cb sc) i cert.
+Fixpoint all_accepted_b (cb : cbk) (i : nat) (certs : list Z) : bool :=
+  match certs with [] => true | c :: r => cb_accepts_b cb i c && all_accepted_b cb (S i) r end.
 Definition user_consent_b (sc : scenario) : bool :=
-  s_trust sc || forallb (cb_accepts_b (s_cb sc)) (seq 0 (failing (s_stream sc))).
+  s_trust sc || all_accepted_b (s_cb sc) 0 (failing_certs (s_stream sc)).
 
 (* ---------------------------------------------------------------- what a run may look like *)
 (* after a failed handshake nothing but the stream close may be written, and only in the clear *)
@@ -69,7 +81,8 @@ Definition cert_verifies (c : cell) : bool := match k_kind c with KValid => k_ca
 Definition table_secured (c : cell) : bool :=
   cert_verifies c || match k_mode c with MTrustFlag | MCallbackAccepts => true | _ => false end.
 
-Definition cell_scenario (c : cell) (stream : list Z) (hs_ok : bool) (te : Z) (after : peer_after) : scenario :=
+Definition cell_scenario (c : cell) (mandatory : bool) (stream : list (Z * Z)) (hs_ok : bool) (te : Z)
+                         (after : peer_after) : scenario :=
   mkScenario (match k_mode c with MTrustFlag => true | _ => false end)
              (k_ca c) false
              (match k_mode c with
@@ -77,11 +90,11 @@ Definition cell_scenario (c : cell) (stream : list Z) (hs_ok : bool) (te : Z) (a
               | MCallbackRejects => CbScript [] 0
               | _ => CbNone
               end)
-             (k_entry c) true true stream hs_ok te after.
+             (k_entry c) mandatory true true stream hs_ok te after.
 
 (* OpenSSL's verdict stream agrees with the premise *)
-Definition stream_consistent (c : cell) (stream : list Z) : Prop :=
-  if cert_verifies c then Forall (fun p => p = 1) stream else exists p, In p stream /\ p <> 1.
+Definition stream_consistent (c : cell) (stream : list (Z * Z)) : Prop :=
+  if cert_verifies c then Forall (fun e => fst e = 1) stream else exists e, In e stream /\ fst e <> 1.
 
 (* expected values of what the translator reads out of tls_openssl.c *)
 Definition SSL_VERIFY_NONE : Z := 0.
@@ -91,3 +104,6 @@ Definition expected_verify_calls : list (Z * Z * Z) := [(1, SSL_VERIFY_NONE, 0);
 Definition expected_hostflags_calls : list (Z * Z) := [(0, X509_CHECK_FLAG_NO_PARTIAL_WILDCARDS)].
 Definition expected_host_calls : list (Z * Z) := [(0, 1)].
 Definition expected_verify_shape : list (Z * Z) := [(1, 1); (2, 0); (3, 0); (0, 100)].
+Definition CURRENT_CERT : Z := 1.                               (* X509_STORE_CTX_get_current_cert *)
+Definition expected_proceed_failure_calls : list Z := [1].     (* xmpp_disconnect, nothing else *)
+Definition expected_legacy_failure_calls : list Z := [2; 6].   (* conn_disconnect; return *)
